@@ -4,19 +4,20 @@ open Common
      FIXMASK  = 1*fixA + 2*fixB + 4*fixC + 8*fixD   (0 = the faithful model)
      PROGRAM  = getter(0/1) p_start p_pb STMTS
      STMTS    = count STMT*
-     EXPR     = 0 id | 1 id | 2                    (ident | call | literal)
+     EXPR     = 0 id | 1 id | 2 | 3                (ident | call | literal | this)
      COND     = 0 | 1 | 2 EXPR                     (true | false | opaque)
      STMT     = 0 p EXPR | 1 p | 2 p is_var OPT(EXPR) | 3 p name pb STMTS | 4 p pb STMTS
               | 5 p OPT(EXPR) | 6 p EXPR | 7 p OPT(label) | 8 p OPT(label) | 9 p STMTS
               | 10 p COND STMT | 11 p COND STMT STMT | 12 p COND STMT | 13 p STMT COND
               | 14 p OPT(COND) STMT | 15 p STMT | 16 p STMT | 17 p CASES | 18 p label STMT
               | 19 p bp STMTS OPT(cp hbp) STMTS OPT(fp) STMTS
-     CASES    = count (cp is_default ft_comment STMTS)*                                  *)
+     CASES    = count (cp OPT(EXPR) ft_comment STMTS)*     (test expression; none = default)                                  *)
 let read_expr () =
   match next_int () with
   | 0 -> Syntax.EIdent (read_n ())
   | 1 -> Syntax.ECall (read_n ())
   | 2 -> Syntax.ELit
+  | 3 -> Syntax.EThis
   | _ -> failwith "expr"
 let read_cond () =
   match next_int () with
@@ -60,7 +61,7 @@ let rec read_stmt () : Syntax.stmt =
 and read_stmts () : Syntax.stmts = stmts_of (read_list read_stmt)
 and read_cases () : Syntax.cases =
   let l = read_list (fun () ->
-    let cp = read_n () in let d = read_bool () in let ft = read_bool () in let b = read_stmts () in (cp, d, ft, b)) in
+    let cp = read_n () in let d = read_opt read_expr in let ft = read_bool () in let b = read_stmts () in (cp, d, ft, b)) in
   L.fold_right (fun (cp, d, ft, b) r -> Syntax.CCons (cp, d, ft, b, r)) l Syntax.CNil
 
 let read_fixes () =
